@@ -396,6 +396,10 @@ def run(ctx):
             for regime in ("walk", "monotone", "plateau"):
                 cs, regime = ind.candles_for(r, (300 if ctx.tier == "quick" else 900) + 1, regime=regime)
                 cases.append(SCase(t, sets, cs[0], cs[1:], "signals-directed", {"regime": regime}))
+        # every Source parameter moved away from its default (a rule that reads the wrong source shows only then)
+        for sets in ind.source_field_configs(t):
+            cs, regime = ind.candles_for(r, (300 if ctx.tier == "quick" else 900) + 1, regime="walk")
+            cases.append(SCase(t, sets, cs[0], cs[1:], "signals-source", {"regime": regime}))
     # witness of the listed finding KF-C06-keltner-polarity (runs on every check)
     cases.append(SCase(tabs["KeltnerChannel"], [("ma", "sma-2"), ("sigma", "0.5")], (10.0, 10.0, 10.0, 10.0, 1.0),
                        [(10.0, 10.0, 9.0, 9.0, 1.0), (9.0, 30.0, 9.0, 30.0, 1.0)], "known-finding-witness"))
